@@ -14,6 +14,7 @@ import (
 	"math"
 	"runtime"
 	"sort"
+	"strings"
 	"sync"
 	"sync/atomic"
 	"testing"
@@ -451,7 +452,11 @@ func TestVerifC17TakeRace(t *testing.T) {
 		nkeys := 1 + r.Intn(3)
 		fail := r.Intn(3) == 0
 		gated := r.Intn(4) != 0
-		desc := fmt.Sprintf("case=%d;callers=%d keys=%d fail=%v gated=%v", idx, callers, nkeys, fail, gated)
+		// after a failed flight every caller takes the same key again at once: that Take started after the flight
+		// whose error the caller holds had ended, so it is answered by a new fetch (its own or a shared one), never
+		// by the finished flight
+		retake := fail && r.Intn(2) == 0
+		desc := fmt.Sprintf("case=%d;callers=%d keys=%d fail=%v gated=%v retake=%v", idx, callers, nkeys, fail, gated, retake)
 		c, err := NewCache(time.Hour)
 		if err != nil {
 			m.Inconclusive("NewCache: %v", err)
@@ -467,6 +472,8 @@ func TestVerifC17TakeRace(t *testing.T) {
 			err error
 		}
 		results := make([]res, callers)
+		results2 := make([]res, callers)
+		var refetches [3]int32
 		started.Add(callers)
 		for g := 0; g < callers; g++ {
 			done.Add(1)
@@ -495,6 +502,13 @@ func TestVerifC17TakeRace(t *testing.T) {
 					return fmt.Sprintf("val-%d-%d", k, n), nil
 				})
 				results[g] = res{k: k, v: v, err: err}
+				if retake {
+					v2, err2 := c.Take(fmt.Sprintf("key%d", k), func() (any, error) {
+						atomic.AddInt32(&refetches[k], 1)
+						return fmt.Sprintf("second-%d-%d", k, g), nil
+					})
+					results2[g] = res{k: k, v: v2, err: err2}
+				}
 			}(g)
 		}
 		started.Wait()
@@ -522,6 +536,9 @@ func TestVerifC17TakeRace(t *testing.T) {
 		for g, rs := range results {
 			nf := int(atomic.LoadInt32(&fetches[rs.k]))
 			if fail {
+				if sv, _ := rs.v.(string); retake && rs.err == nil && strings.HasPrefix(sv, fmt.Sprintf("second-%d-", rs.k)) {
+					continue // a late first Take that met the value another caller's second Take had fetched
+				}
 				if rs.err == nil {
 					m.Violate("C17:take-error-lost", desc, "caller %d got (%v, nil) although every fetch failed", g, rs.v)
 				}
@@ -537,8 +554,27 @@ func TestVerifC17TakeRace(t *testing.T) {
 				m.Violate("C17:take-wrong-result", desc, "caller %d of key%d got (%v,%v), not the result of any fetch", g, rs.k, rs.v, rs.err)
 			}
 		}
+		if retake {
+			for g, rs := range results2 {
+				// The next Take may share a flight that another late caller is leading (first- or second-generation
+				// fetch), but not the very flight whose result this caller already holds: that one had ended before
+				// the caller's first Take returned (fetch errors carry a per-key execution number, so equal text
+				// means the same execution).
+				if first := results[g]; rs.err != nil && first.err != nil && rs.err.Error() == first.err.Error() {
+					m.Violate("C17:take-answered-by-finished-flight", desc, "caller %d of key%d: its first Take returned %q; its next Take, started afterwards, was handed the same finished execution's result again (%v,%v) instead of the result of a fetch overlapping it (%d second-generation fetches ran)", g, rs.k, first.err, rs.v, rs.err, atomic.LoadInt32(&refetches[rs.k]))
+					break
+				}
+				if sv, _ := rs.v.(string); rs.err == nil && !strings.HasPrefix(sv, fmt.Sprintf("second-%d-", rs.k)) {
+					m.Violate("C17:take-wrong-result", desc, "caller %d of key%d: second Take got (%v,nil), not the result of any fetch", g, rs.k, rs.v)
+					break
+				}
+			}
+			for k := 0; k < nkeys; k++ {
+				m.Count("refetches_after_failed_flight", int64(atomic.LoadInt32(&refetches[k])))
+			}
+		}
 		// errors must not be cached: a later Take fetches again
-		for k := 0; k < nkeys; k++ {
+		for k := 0; k < nkeys && !retake; k++ {
 			again := 0
 			v, err := c.Take(fmt.Sprintf("key%d", k), func() (any, error) { again++; return "fresh", nil })
 			if fail && (again != 1 || err != nil || v != "fresh") {
